@@ -330,6 +330,9 @@ def redownload_sessions(rnd, n, prefix="rd"):
     out = []
     for i in range(n):
         fw, micro, ident = config(rnd, i)
+        fw = [21, 32, 20, 19][i % 4]                      # instance-id addressing (>= 21) in half of the sessions
+        micro = False
+        ident = S.identity(fw=fw, name="1756-L83E/B", serial=rnd.getrandbits(32))
         proj, mem, b = gen_project(rnd, n_tags=4, programs=rnd.choice([0, 1]), junk=False, twin=True, wide=False)
         p2, m2 = redownload(proj, mem, rnd)
         reads = [R([("TwinTag", [])]), R([("TwinTag", []), ("a", [])]), R([("TwinTag", []), ("b", [])]), R([("TwinArr", [1]), ("n", [])]),
@@ -345,7 +348,8 @@ def redownload_sessions(rnd, n, prefix="rd"):
             again = [{"api": "get_tag_list", "program": "*", "view": 1, "intent": {"allprogs": 1}}]
         else:
             again = [{"api": "close"}, {"api": "open", "view": 1}]
-        calls = [{"api": "open", "view": 1}, rd, wr, rd, env] + again + [rd, wr2, rd, {"api": "close"}]
+        after = [rd, wr2, rd] if (i // 4) % 2 == 0 else [wr2, rd]        # the first request after the new upload: a read / a write
+        calls = [{"api": "open", "view": 1}, rd, wr, rd, env] + again + after + [{"api": "close"}]
         out.append({"id": "%s%d" % (prefix, i), "family": "logix-redownload" + ("-micro800" if micro else ""),
                     "target": {"policy": rnd.choice(["LargeOK", "LargeRefused"]), "identity": ident},
                     "project": proj, "mem": mem,
